@@ -20,6 +20,11 @@ NAMES = ["a", "b", "c", "d", "e", "f_g", "h", "pop", "copy"]
 N_STRATS = 7
 
 
+class FalsyMixin(object):
+  def __len__(self):
+    return 0          # a callable container that happens to be empty
+
+
 class Strat(object):
   """ Equal-but-distinct callables: equality and hash by tag only. """
 
@@ -44,7 +49,10 @@ class Strat(object):
 
 
 def make_strats():
-  out = [Strat(0, 0), Strat(1, 0), Strat(2, 0), Strat(0, 1), Strat(1, 1)]
+  class FalsyStrat(FalsyMixin, Strat):
+    pass
+  out = [Strat(0, 0), Strat(1, 0), FalsyStrat(2, 0), Strat(0, 1),
+         Strat(1, 1)]
 
   def fn5(*args, **kwargs):
     return ("fn", 5, args, tuple(sorted(kwargs.items())))
@@ -251,6 +259,7 @@ class C15(Property):
     d = self.core.MultiKeyDict()
     m = MultiKeyModel()
     mutating = 0
+    shadows = []
     self._observe_mkd(d, m, "init")
     for op in ops:
       name = op[0]
@@ -275,6 +284,10 @@ class C15(Property):
         self._same_outcome(lambda: d[keys], lambda: m.get_tuple(keys),
                            "getitem-tuple", "d[%r]" % (keys,))
       elif name == "copycon":
+        # the source stays alive: it must not change when the copy does
+        import copy as _copy
+        shadows.append((d, _copy.deepcopy(m)))
+        del shadows[:-2]
         try:
           d = self.core.MultiKeyDict(d)
         except Exception as exc:
@@ -328,6 +341,10 @@ class C15(Property):
       events.append("%s %r" % (name, m.canon()))
       res.states.append(stable_hash(m.canon()))
       self._observe_mkd(d, m, name)
+      for od, om in shadows:
+        self._observe_mkd(od, om, name + " (on its copy)")
+      if shadows:
+        probes.add("source-of-a-copy-still-alive")
     return mutating
 
   def _same_outcome(self, real, model, what, text):
